@@ -198,10 +198,13 @@ def run_tlc(spec_dir, module, cfg, workers=NCPU, env=None, timeout=1500, xmx="8g
     r.wall = time.time() - t0
     r.stdout_path = stdout_path
     tail = []
+    first_error = None
     with open(stdout_path, "r", errors="replace") as f:
         for line in f:
             if line.startswith('"EDGE '):
                 continue
+            if first_error is None and line.startswith("Error: "):
+                first_error = line
             tail.append(line)
             if len(tail) > 400:
                 tail = tail[-300:]
@@ -211,7 +214,7 @@ def run_tlc(spec_dir, module, cfg, workers=NCPU, env=None, timeout=1500, xmx="8g
             m = re.match(r"The depth of the complete state graph search is (\d+)", line)
             if m:
                 r.depth = int(m.group(1))
-    r.out = "".join(tail)
+    r.out = (first_error or "") + "".join(tail)
     shutil.rmtree(md, ignore_errors=True) if stdout_path and not stdout_path.startswith(md) else None
     if r.exit == 124:
         r.error = "TLC timeout after %ds" % timeout
